@@ -183,12 +183,13 @@ def judge (force : Nat) (st : St) (method path : Bytes) (hs : List (Bytes × Byt
         [] "unbounded-reentry" else st1
   if o.framing == "noresponse" then
     -- nothing came back within the client's deadline: the key is wedged (C13), the request unanswered (C05)
-    -- finding C11-a seen from here: the key string is a bare concatenation, so a request WITH Authorization finds the
-    -- entry stored for the path `<path>Authorization<credentials>`; when that entry is revalidated with 304 the handler
-    -- re-enters itself while still holding the key and waits for itself
-    let authV := (valuesCI hs b!"authorization").headD []
-    let collides := reqAuth && st.all.any (fun x => x.path == path ++ b!"Authorization" ++ authV)
-    add st1 ["bad:C13:request-got-no-response-the-key-is-wedged", "bad:C05:request-got-no-response"] (if collides then ["C11-a"] else []) "noresponse" else
+    add st1 ["bad:C13:request-got-no-response-the-key-is-wedged", "bad:C05:request-got-no-response"] [] "noresponse" else
+  -- finding C11-a seen from here: the key string is a bare concatenation, so a request WITH Authorization finds the
+  -- entry stored for the path `<path>Authorization<credentials>` and is answered from it (hit, or revalidated with the
+  -- origin of ITS url and then served the other URL's body)
+  let authV := (valuesCI hs b!"authorization").headD []
+  let collides := reqAuth && st.all.any (fun x => x.path == path ++ b!"Authorization" ++ authV)
+  let st1 := if collides then { st1 with cls := st1.cls ++ ["C11-a"] } else st1
   match cur? with
   | none => add st1 [] [] "no-origin"
   | some c =>
@@ -373,6 +374,6 @@ def hSysC : Handler := fun impl => do
   let label := "+".intercalate ((mlabels ++ st.labels).eraseDups.take 6)
   return { model := " ".intercalate mtoks, oracle := oracle, cls := cls, label := if label = "" then "-" else label }
 
-def handlers : List (String × Handler) := [ ("sysc", hSysC), ("kf.C08-c", hSysC), ("kf.C09-g", hSysC), ("kf.C05-a", hSysC), ("kf.C09-e.sysc", hSysC), ("kf.C09-b.sysc", hSysC), ("kf.C11-a.sysc", hSysC) ]
+def handlers : List (String × Handler) := [ ("sysc", hSysC), ("kf.C08-c", hSysC), ("kf.C09-g", hSysC), ("kf.C05-a", hSysC), ("kf.C09-e.sysc", hSysC), ("kf.C09-b.sysc", hSysC), ("kf.C11-a.sysc", hSysC), ("kf.C07-a.loop", hSysC) ]
 
 end H.SysC
